@@ -127,10 +127,11 @@ def native_call(src, cfg, calldata: bytes, value=0, evm_version="cancun", storag
     import os
     import sys
 
-    if "/repo" not in sys.path:
-        sys.path.insert(0, "/repo")
+    _repo = os.environ.get("VVERIF_REPO", "/repo")
+    if _repo not in sys.path:
+        sys.path.insert(0, _repo)
     cwd = os.getcwd()
-    os.chdir("/repo")
+    os.chdir(os.environ.get("VVERIF_REPO", "/repo"))
     try:
         from eth_keys import keys
         from tests.evm_backends.revm_env import RevmEnv
